@@ -162,7 +162,8 @@ def conc_key(events, ev):
     cfg = events[0].get("cfg", "")
     w = cfg.split("/")[0]
     if ev["e"] == "deadlock":
-        return "%s/ts<-ts/binary/lock-order-deadlock" % w
+        fam = "/clone-family" if ("family-clone" in cfg or "family-siblings" in cfg) else ""
+        return "%s/ts<-ts/binary/lock-order-deadlock%s" % (w, fam)
     ops = sorted({e["op"] for e in events if e["e"] == "inv" and e.get("p")})
     return "%s/ts<-ts/%s/not-linearizable" % (w, "+".join(ops) or "unary")
 
@@ -192,6 +193,17 @@ def concurrent(ctx, quick):
             raise ToolFailure("UNREPRODUCED toggle candidate %s" % hid)
         ctx.report(conc_key(events, ev), "A.%s(B) racing B.Add(0); B.Remove(3): final A = %s is the result for no state B ever had" % (
             events[1]["op"], events[-1]["st"]["A"]["xs"]), {"scenario": "toggle", "events": events})
+    # (b2) opposing binary operations between wrappers related by Clone (and, as control, unrelated ones)
+    t = os.path.join(ctx.work, "family.ndjson")
+    ctx.vh(["idset", "family", "--out", t, "--iters", "60000" if quick else "400000"], race=False, timeout=600)
+    for hid, ev, events, pos in lin_batch(ctx, t, "family"):
+        t2 = os.path.join(ctx.work, "family2.ndjson")
+        ctx.vh(["idset", "family", "--out", t2, "--iters", "400000"], race=False, timeout=600)
+        again = [x for x in lin_batch(ctx, t2, "family2") if x[0] == hid]
+        if not again:
+            raise ToolFailure("UNREPRODUCED family candidate %s" % hid)
+        ctx.report(conc_key(events, ev), "wrappers of one clone family (%s): %s" % (events[0]["cfg"], ev.get("note") or json.dumps(ev)[:300]),
+                   {"scenario": "family", "events": events})
     # (c) free-running histories under -race; operands in both directions only when (a) showed no deadlock
     both = not any(e[1]["e"] == "deadlock" for e in abba_bad)
     t = os.path.join(ctx.work, "conc.ndjson")
